@@ -391,10 +391,311 @@ func runScenario(c cfg, rng *vlib.Rand) Scenario {
 	return sc
 }
 
+// ---------------------------------------------------------------------------
+// Directed, deterministic scenarios.  The scripted source signals when a call has been
+// entered and keeps it open until released, so the ordering is controlled without any
+// hook; holds (400 ms) are long compared with the latency bound (100 ms).
+
+type dsrc struct {
+	mu      sync.Mutex
+	listed  map[int]int64 // what FetchAll reports: provider -> advertisement time
+	known   map[int]int64 // what only Fetch knows (not listed yet)
+	gateAll chan struct{} // one-shot: the next FetchAll waits for it
+	gateOne chan struct{} // one-shot: the next Fetch waits for it
+	entered chan struct{}
+}
+
+func newDsrc() *dsrc {
+	return &dsrc{listed: map[int]int64{}, known: map[int]int64{}, entered: make(chan struct{}, 16)}
+}
+
+func dinfo(pid int, t int64) *model.ProviderInfo {
+	return &model.ProviderInfo{AddrInfo: pcdrv.AddrInfo(pid, pid),
+		LastAdvertisementTime: time.Unix(timeBase+t, 0).UTC().Format(time.RFC3339)}
+}
+
+func waitGate(g chan struct{}) {
+	select {
+	case <-g:
+	case <-time.After(5 * time.Second): // never hang the run
+	}
+}
+
+func (s *dsrc) FetchAll(ctx context.Context) ([]*model.ProviderInfo, error) {
+	s.mu.Lock()
+	g := s.gateAll
+	s.gateAll = nil
+	s.mu.Unlock()
+	if g != nil {
+		s.entered <- struct{}{}
+		waitGate(g)
+	}
+	s.mu.Lock()
+	defer s.mu.Unlock()
+	var out []*model.ProviderInfo
+	for p, t := range s.listed {
+		out = append(out, dinfo(p, t))
+	}
+	return out, nil
+}
+
+func (s *dsrc) Fetch(ctx context.Context, pid peer.ID) (*model.ProviderInfo, error) {
+	s.mu.Lock()
+	g := s.gateOne
+	s.gateOne = nil
+	s.mu.Unlock()
+	if g != nil {
+		s.entered <- struct{}{}
+		waitGate(g)
+	}
+	s.mu.Lock()
+	defer s.mu.Unlock()
+	p := pcdrv.PeerIndex(pid)
+	if t, ok := s.listed[p]; ok {
+		return dinfo(p, t), nil
+	}
+	if t, ok := s.known[p]; ok {
+		return dinfo(p, t), nil
+	}
+	return nil, nil
+}
+
+func (s *dsrc) String() string { return "directed" }
+
+func (s *dsrc) gate(all bool) chan struct{} {
+	g := make(chan struct{})
+	s.mu.Lock()
+	if all {
+		s.gateAll = g
+	} else {
+		s.gateOne = g
+	}
+	s.mu.Unlock()
+	return g
+}
+
+func (s *dsrc) waitEntered(d time.Duration) bool {
+	select {
+	case <-s.entered:
+		return true
+	case <-time.After(d):
+		return false
+	}
+}
+
+type Directed struct {
+	Name     string   `json:"name"`
+	Failures []string `json:"failures,omitempty"`
+	Notes    []string `json:"notes,omitempty"`
+}
+
+const (
+	dP, dQ, dR, dR2 = 1, 2, 3, 4
+	holdDirected    = 400 * time.Millisecond
+	boundDirected   = 100 * time.Millisecond
+)
+
+// timed runs one read of a cached provider and reports a failure if it took longer than
+// the bound or did not return the provider
+func timedReads(d *Directed, pc *pcache.ProviderCache, when string) {
+	check := func(kind string, f func() bool) {
+		a := time.Now()
+		ok := f()
+		el := time.Since(a)
+		d.Notes = append(d.Notes, fmt.Sprintf("%s %s: %v", kind, when, el.Round(time.Microsecond)))
+		if el > boundDirected {
+			d.Failures = append(d.Failures, fmt.Sprintf("reader-waited: %s of a cached provider %s took %v (a source call was held open for %v; bound %v)", kind, when, el.Round(time.Millisecond), holdDirected, boundDirected))
+		}
+		if !ok {
+			d.Failures = append(d.Failures, fmt.Sprintf("cached-provider-missing: %s %s did not return the cached provider", kind, when))
+		}
+	}
+	check("Get", func() bool {
+		pi, err := pc.Get(context.Background(), pcdrv.Peer(dP))
+		return err == nil && pi != nil
+	})
+	check("GetResults", func() bool {
+		res, err := pc.GetResults(context.Background(), pcdrv.Peer(dP), []byte("c"), []byte{1})
+		return err == nil && len(res) > 0
+	})
+	check("List", func() bool {
+		for _, pi := range pc.List() {
+			if pi.AddrInfo.ID == pcdrv.Peer(dP) {
+				return true
+			}
+		}
+		return false
+	})
+}
+
+// (a) the refresh interval has elapsed and the source's FetchAll is held open: reads of a
+// cached provider return at once; optionally a miss of another provider is being fetched
+// (and holds the write slot) at the same time
+func directedReaderLatency(name string, auto, missHeld bool) Directed {
+	d := Directed{Name: name}
+	src := newDsrc()
+	src.listed[dP] = 1
+	src.known[dR] = 1
+	interval := time.Duration(0)
+	if auto {
+		interval = 10 * time.Millisecond
+	}
+	pc, err := pcache.New(pcache.WithSource(src), pcache.WithTTL(time.Hour), pcache.WithRefreshInterval(interval))
+	if err != nil {
+		panic(err)
+	}
+	var gates []chan struct{}
+	if auto {
+		gates = append(gates, src.gate(true))
+	}
+	var missDone chan struct{}
+	if missHeld {
+		gates = append(gates, src.gate(false))
+		missDone = make(chan struct{})
+		go func() {
+			_, _ = pc.Get(context.Background(), pcdrv.Peer(dR))
+			close(missDone)
+		}()
+		if !src.waitEntered(2 * time.Second) {
+			d.Failures = append(d.Failures, "setup: the miss never reached the source")
+		}
+	}
+	for _, g := range gates {
+		g := g
+		time.AfterFunc(holdDirected, func() { close(g) })
+	}
+	if auto {
+		time.Sleep(3 * interval) // the interval has elapsed: needsRefresh is set
+	}
+	timedReads(&d, pc, "with the refresh interval elapsed / a source call held open")
+	if auto && !missHeld {
+		// the automatic refresh is now inside FetchAll (held): read again
+		if !src.waitEntered(time.Second) {
+			d.Notes = append(d.Notes, "the automatic refresh had not reached the source after 1s")
+		}
+		timedReads(&d, pc, "while the automatic refresh is inside FetchAll")
+	}
+	time.Sleep(holdDirected + 50*time.Millisecond)
+	if missDone != nil {
+		select {
+		case <-missDone:
+		case <-time.After(3 * time.Second):
+			d.Failures = append(d.Failures, "hung: the miss did not return after its source call was released")
+		}
+	}
+	return d
+}
+
+// (b) what one writer published is never rolled back by a writer that queued behind it
+func directedNoRollback(name string, missFirst bool) Directed {
+	d := Directed{Name: name}
+	src := newDsrc()
+	src.listed[dP] = 1
+	src.known[dR] = 1
+	src.known[dR2] = 1
+	pc, err := pcache.New(pcache.WithSource(src), pcache.WithTTL(time.Hour), pcache.WithRefreshInterval(0))
+	if err != nil {
+		panic(err)
+	}
+	// new data at the source: P advanced, Q added
+	src.mu.Lock()
+	src.listed[dP] = 2
+	src.listed[dQ] = 1
+	src.mu.Unlock()
+
+	var wg sync.WaitGroup
+	run := func(f func()) {
+		wg.Add(1)
+		go func() { defer wg.Done(); f() }()
+	}
+	refresh := func() { _ = pc.Refresh(context.Background()) }
+	get := func(p int) func() {
+		return func() { _, _ = pc.Get(context.Background(), pcdrv.Peer(p)) }
+	}
+	var g chan struct{}
+	if !missFirst {
+		g = src.gate(true) // W1 = Refresh, held open inside FetchAll
+		run(refresh)
+	} else {
+		g = src.gate(false) // W1 = the miss of R, held open inside Fetch
+		run(get(dR))
+	}
+	if !src.waitEntered(2 * time.Second) {
+		d.Failures = append(d.Failures, "setup: the first writer never reached the source")
+	}
+	// these load the snapshot, miss (or find the slot busy) and queue behind W1
+	if !missFirst {
+		run(get(dR))
+	} else {
+		run(refresh)
+	}
+	run(get(dR2))
+	time.Sleep(40 * time.Millisecond)
+	close(g)
+	done := make(chan struct{})
+	go func() { wg.Wait(); close(done) }()
+	select {
+	case <-done:
+	case <-time.After(4 * time.Second):
+		d.Failures = append(d.Failures, "hung: the writers did not all return")
+		return d
+	}
+	// every writer has returned: nothing any of them published may be gone
+	pi, _ := pc.Get(context.Background(), pcdrv.Peer(dP))
+	if pi == nil {
+		d.Failures = append(d.Failures, "rolled-back: provider P, cached before and reported throughout, is missing after the writers returned")
+	} else if t := timeOf(pi); t != 2 {
+		d.Failures = append(d.Failures, fmt.Sprintf("rolled-back: Get(P) returns the record of time %d after a refresh that fetched time 2 completed", t))
+	}
+	listed := map[int]int64{}
+	for _, x := range pc.List() {
+		listed[pcdrv.PeerIndex(x.AddrInfo.ID)] = timeOf(x)
+	}
+	for _, w := range []struct {
+		p    int
+		name string
+	}{{dP, "P"}, {dQ, "Q (added by the refresh)"}, {dR, "R (cached by a miss)"}, {dR2, "R2 (cached by a miss)"}} {
+		if _, ok := listed[w.p]; !ok {
+			d.Failures = append(d.Failures, fmt.Sprintf("rolled-back: provider %s is not listed after all writers returned (List has %v)", w.name, listed))
+		}
+	}
+	if t, ok := listed[dP]; ok && t != 2 {
+		d.Failures = append(d.Failures, fmt.Sprintf("rolled-back: List has P with time %d after a refresh that fetched time 2 completed", t))
+	}
+	if n := pc.Len(); n < 4 {
+		d.Failures = append(d.Failures, fmt.Sprintf("rolled-back: Len is %d with four providers cached", n))
+	}
+	return d
+}
+
+func runDirected(only string) []Directed {
+	var out []Directed
+	add := func(name string, f func() Directed) {
+		if only == "" || only == name {
+			out = append(out, f())
+		}
+	}
+	add("reader/interval-elapsed-fetchall-held", func() Directed {
+		return directedReaderLatency("reader/interval-elapsed-fetchall-held", true, false)
+	})
+	add("reader/miss-fetch-held", func() Directed { return directedReaderLatency("reader/miss-fetch-held", false, true) })
+	add("reader/interval-elapsed-and-miss-fetch-held", func() Directed {
+		return directedReaderLatency("reader/interval-elapsed-and-miss-fetch-held", true, true)
+	})
+	for k := 0; k < 3; k++ {
+		add("writers/refresh-held-misses-queue", func() Directed { return directedNoRollback("writers/refresh-held-misses-queue", false) })
+		add("writers/miss-held-refresh-and-miss-queue", func() Directed {
+			return directedNoRollback("writers/miss-held-refresh-and-miss-queue", true)
+		})
+	}
+	return out
+}
+
 func main() {
 	seed := flag.Uint64("seed", 1, "seed")
 	tier := flag.String("tier", "quick", "tier")
 	out := flag.String("out", "", "result file")
+	only := flag.String("directed-only", "", "run only this directed scenario")
 	flag.Parse()
 	logging.SetAllLoggers(logging.LevelFatal)
 	rng := vlib.NewRand(*seed)
@@ -405,6 +706,10 @@ func main() {
 		rounds = 4
 	}
 	var res []Scenario
+	dres := runDirected(*only)
+	if *only != "" {
+		rounds = 0
+	}
 	for k := 0; k < rounds; k++ {
 		res = append(res,
 			runScenario(cfg{name: "refresh-with-source-call-held-open", nprov: 4, holdAll: 30 * time.Millisecond, refresher: true, dur: dur, nreaders: 6}, rng.Fork(fmt.Sprint("a", k))),
@@ -413,7 +718,7 @@ func main() {
 			runScenario(cfg{name: "refreshes-rebuilding-the-main-map", nprov: 24, refresher: true, misser: true, churn: true, dur: dur, nreaders: 6}, rng.Fork(fmt.Sprint("d", k))),
 		)
 	}
-	b, err := json.Marshal(res)
+	b, err := json.Marshal(map[string]interface{}{"scenarios": res, "directed": dres})
 	if err != nil {
 		panic(err)
 	}
